@@ -1,2 +1,2 @@
-import Fv.Driver.ChainB
-def main : IO UInt32 := Fv.Driver.runEngine Fv.Driver.ChainB.engine
+import Fv.Driver.ChainBMpmc
+def main : IO UInt32 := Fv.Driver.runEngine Fv.Driver.ChainB.engineAny
